@@ -11,6 +11,7 @@ import (
 	"strings"
 	"time"
 
+	sdknft "cosmossdk.io/x/nft"
 	sdk "github.com/cosmos/cosmos-sdk/types"
 
 	nftkeeper "mods.irisnet.org/modules/nft/keeper"
@@ -460,6 +461,10 @@ func (w *world) observe(code int) string {
 			w.note("Supply query failed: %v", err)
 		} else {
 			supply = append(supply, kv{[]int{c}, lib.ZU(sres.Amount)})
+			// the SDK module's own query service (registered next to irismod's) must say the same
+			if s2, err := k.NFTkeeper().Supply(e.Ctx, &sdknft.QuerySupplyRequest{ClassId: d.Id}); err != nil || s2.Amount != sres.Amount {
+				w.note("x/nft Supply query disagrees with the irismod Supply query for %s", d.Id)
+			}
 		}
 		cres, err := k.Collection(e.Ctx, &nfttypes.QueryCollectionRequest{DenomId: d.Id})
 		if err != nil {
@@ -481,6 +486,9 @@ func (w *world) observe(code int) string {
 			if o := k.NFTkeeper().GetOwner(e.Ctx, d.Id, t.Id); o.String() != t.Owner {
 				w.note("x/nft owner record of %s/%s differs from the collection", d.Id, t.Id)
 			}
+			if o2, err := k.NFTkeeper().Owner(e.Ctx, &sdknft.QueryOwnerRequest{ClassId: d.Id, Id: t.Id}); err != nil || o2.Owner != t.Owner {
+				w.note("x/nft Owner query of %s/%s differs from the collection", d.Id, t.Id)
+			}
 		}
 		for ai, a := range e.Actors {
 			bres, err := k.Supply(e.Ctx, &nfttypes.QuerySupplyRequest{DenomId: d.Id, Owner: a.String()})
@@ -489,6 +497,9 @@ func (w *world) observe(code int) string {
 				continue
 			}
 			bal = append(bal, kv{[]int{ai, c}, lib.ZU(bres.Amount)})
+			if b2, err := k.NFTkeeper().Balance(e.Ctx, &sdknft.QueryBalanceRequest{ClassId: d.Id, Owner: a.String()}); err != nil || b2.Amount != bres.Amount {
+				w.note("x/nft Balance query disagrees with the irismod Supply(owner) query for %s", d.Id)
+			}
 		}
 	}
 	for ai, a := range e.Actors {
